@@ -8,6 +8,7 @@ python3 translator/extract_formulas.py /repo lean/Decaf/Generated/Formulas.lean
 python3 translator/extract_opforms.py /repo lean/Decaf/Generated/OpForms.lean
 python3 translator/extract_convforms.py /repo lean/Decaf/Generated/ConvForms.lean
 python3 translator/extract_lazy.py /repo lean/Decaf/Generated/Lazy.lean
+python3 translator/extract_fieldfns.py /repo lean/Decaf/Generated/FieldFns.lean
 ( cd lean && lake build Decaf driver Decaf.AuditCmd )
 # warm the proof modules (each check builds its own; this only moves the cold Mathlib load and the long proofs out of the first check)
 ( cd lean && lake build Decaf.Props.C01 Decaf.Props.C02 Decaf.Props.C03 Decaf.Props.C04 Decaf.Props.C05 Decaf.Props.C06 Decaf.Props.C07 Decaf.Props.C08 \
